@@ -36,17 +36,28 @@ Theorem C18_dir_cache_never_substituted : forall ls root_mtime cached real,
 Proof. exact scan_with_cache_is_scan. Qed.
 Print Assumptions C18_dir_cache_never_substituted.
 
-(* Resume.  No run writes a state file (the engine loads, and on success deletes, .sy-state.json but never saves one),
-   so the completed set a run sees is empty, and planning is unchanged *)
+(* Resume.  No run writes a state file (the engine loads, and on success deletes, .sy-state.json but never saves one), so the
+   completed set a run sees is empty and planning is unchanged ... *)
 Theorem C18_resume_without_state : forall src, plan_resume [] src = src.
 Proof. exact plan_resume_nil. Qed.
 Print Assumptions C18_resume_without_state.
 
-(* Known finding C18-KF2: a VALID state file with compatible flags -- e.g. written by another build through the public
-   ResumeState API -- hides every path it lists from the planner, whatever happened to the source since *)
-Theorem C18_stale_state_refuted : forall p e src, se_path e = p -> ~ In e (plan_resume [p] (e :: src)).
-Proof. exact plan_resume_hides. Qed.
-Print Assumptions C18_stale_state_refuted.
+(* ... and with ANY state file (e.g. one another build left through the public ResumeState API): a file is kept out of the plan
+   only if the state records exactly its current size and checksum, and an edited file -- another size or another content -- is
+   planned again whatever the state says (`fix: a path recorded as completed in the resume state is skipped only while the source
+   file is unchanged`; on the pinned commit every listed path was skipped unseen, recorded as fixed) *)
+Theorem C18_resume_skips_only_unchanged : forall comp src e,
+  In e src -> se_is_dir e = false -> ~ In e (plan_resume comp src) ->
+  exists r, In r comp /\ cp_path r = se_path e /\ cp_size r = se_size e /\ cp_sum r = se_content e.
+Proof. exact plan_resume_skips_only_unchanged. Qed.
+Print Assumptions C18_resume_skips_only_unchanged.
+
+Theorem C18_resume_replans_edited : forall comp src e,
+  In e src -> se_is_dir e = false ->
+  (forall r, In r comp -> cp_path r = se_path e -> cp_size r <> se_size e \/ cp_sum r <> se_content e) ->
+  In e (plan_resume comp src).
+Proof. exact plan_resume_replans_edited. Qed.
+Print Assumptions C18_resume_replans_edited.
 
 (* non-vacuity: a history in which a file was edited twice, a database with the row of the older version *)
 Definition ex_versions (p : path) : list (Z * N * N) := if peqb p [1%N] then [(100%Z, 5%N, 7%N); (200%Z, 5%N, 8%N)] else [].
